@@ -52,6 +52,8 @@ def _src(k, syms):
     if tag == 'term':
         op = k[1]
         a = k[2:]
+        if ':' in op and not op.startswith('cast:') and op.rsplit(':', 1)[1].isdigit():
+            op = op.rsplit(':', 1)[0]        # '/:32' = done in a 32-bit C type; grid values never wrap
         if op in _BIN and len(a) == 2:
             return _BIN[op] % (_src(a[0], syms), _src(a[1], syms))
         if op == '!' and len(a) == 1:
